@@ -114,7 +114,11 @@ impl<'tree, D: Doc> MetaVarEnv<'tree, D> {
     var_matchers: &HashMap<MetaVariableID, M>,
   ) -> bool {
     let mut env = Cow::Borrowed(self);
-    for (var_id, candidate) in &self.single_matched {
+    // a hash map has no order: apply the constraints in the order of the variable names, so that
+    // what they bind does not change from run to run
+    let mut vars: Vec<_> = self.single_matched.iter().collect();
+    vars.sort_unstable_by(|a, b| a.0.cmp(b.0));
+    for (var_id, candidate) in vars {
       if let Some(m) = var_matchers.get(var_id) {
         if m.match_node_with_env(candidate.clone(), &mut env).is_none() {
           return false;
